@@ -333,10 +333,16 @@ def scanner_sibling_rules(ctx, rule_blank, rule_line):
                 ctx.oblige(rule_blank, f"{fname}: blank test at line {n.lineno} drives a loop", ok, sample={"rule": "R-C09.6", "function": fname, "construct": S.unparse(holder)[:80] if holder is not None else None})
                 if not ok:
                     viol(rule_blank, f"blank-skip:{fname}:{S.unparse(n)}", f"in {fname} the blank test `{S.unparse(n)}` guards an `if`, while every other blank-skipping site is a loop: only one blank is skipped, so extra spaces or tabs end up in the token text / break the directive", f"CLexer.{fname}", holder)
+    skippers = _blank_skippers(lx)
+    for fname, fn in lx.methods("CLexer").items():
+        for n in ast.walk(fn):
+            if isinstance(n, ast.Call) and isinstance(n.func, ast.Name) and n.func.id in skippers:
+                nblank += 1
+                ctx.oblige(rule_blank, f"{fname}: blanks skipped by {n.func.id}() at line {n.lineno}", True)
     if nblank < 3:
         raise AnalysisError("blank-skipping sites of the directive scanners not found")
     pl = lx.method("CLexer", "_handle_ppline")
-    names = _ppline_names(pl)
+    names = _ppline_names(pl, skippers)
     cursor, length, succ_name, skipper = names["cursor"], names["length"], names["success"], names["skipper"]
     rms = [c for c in ast.walk(pl) if isinstance(c, ast.Call) and S.unparse(c.func) in ("re.match", "re.search", "re.fullmatch")]
     if len(rms) < 2:
@@ -376,6 +382,7 @@ def scanner_sibling_rules(ctx, rule_blank, rule_line):
         blk, idx = _block_of(n)
         prev = blk[idx - 1] if idx > 0 else None
         ok = prev is not None and ((isinstance(prev, ast.Expr) and isinstance(prev.value, ast.Call) and isinstance(prev.value.func, ast.Name) and prev.value.func.id == skipper)
+                                   or (isinstance(prev, ast.Assign) and isinstance(prev.value, ast.Call) and isinstance(prev.value.func, ast.Name) and prev.value.func.id in skippers)
                                    or (isinstance(prev, ast.While) and any(isinstance(x, ast.Constant) and x.value == " \t" for x in ast.walk(prev.test))))
         ctx.oblige(rule_line, f"_handle_ppline: end test at line {n.lineno} follows blank skipping", ok)
         if not ok:
@@ -387,9 +394,36 @@ def _is_end_test(t, cursor, length):
     return isinstance(t, ast.Compare) and len(t.ops) == 1 and isinstance(t.ops[0], (ast.GtE, ast.Eq)) and S.unparse(t.left) == cursor and S.unparse(t.comparators[0]) == length
 
 
-def _ppline_names(pl):
+def _blank_skippers(lx):
+    """module-level functions of the form `def f(text, pos, end): while pos < end and text[pos] in " \t": pos += 1; return pos` -> (index of pos, index of end)"""
+    out = {}
+    for name, f in lx.functions.items():
+        body = [st for st in f.body if not (isinstance(st, ast.Expr) and isinstance(st.value, ast.Constant))]
+        if len(body) == 2 and isinstance(body[0], ast.While) and isinstance(body[1], ast.Return) and isinstance(body[1].value, ast.Name) \
+                and any(isinstance(x, ast.Constant) and x.value == " \t" for x in ast.walk(body[0].test)):
+            params = [a.arg for a in f.args.args]
+            cur = body[1].value.id
+            end = None
+            for c in ast.walk(body[0].test):
+                if isinstance(c, ast.Compare) and len(c.ops) == 1 and isinstance(c.ops[0], ast.Lt) and isinstance(c.left, ast.Name) and c.left.id == cur and isinstance(c.comparators[0], ast.Name):
+                    end = c.comparators[0].id
+            steps = [a for a in ast.walk(body[0]) if isinstance(a, ast.AugAssign) and isinstance(a.target, ast.Name) and a.target.id == cur and isinstance(a.op, ast.Add) and isinstance(a.value, ast.Constant) and a.value.value == 1]
+            if cur in params and end in params and steps:
+                out[name] = (params.index(cur), params.index(end))
+    return out
+
+
+def _ppline_names(pl, skippers=None):
     """local names of the #line scanner, found by role: cursor and length (from the blank-skipping loop), the blank skipper, the success exit"""
     out = {}
+    for n in ast.walk(pl):
+        if isinstance(n, ast.Call) and isinstance(n.func, ast.Name) and n.func.id in (skippers or {}):
+            pi, ei = skippers[n.func.id]
+            if pi < len(n.args) and ei < len(n.args) and isinstance(n.args[pi], ast.Name) and isinstance(n.args[ei], ast.Name):
+                out["cursor"], out["length"] = n.args[pi].id, n.args[ei].id
+                f = S.enclosing_function(n)
+                if f is not pl and isinstance(f, ast.FunctionDef):
+                    out["skipper"] = f.name
     for n in ast.walk(pl):
         if isinstance(n, ast.While) and any(isinstance(x, ast.Constant) and x.value == " \t" for x in ast.walk(n.test)):
             for c in ast.walk(n.test):
